@@ -4,6 +4,7 @@
 set -e
 cd "$(dirname "$0")"
 export CARGO_NET_OFFLINE=true
+python3 tools/translate.py > /dev/null   # regenerate lean/NdInterp/Gen/SourceFacts.lean from /repo/src
 MODS=$(ls lean/NdInterp/Props/*.lean | sed 's#lean/##; s#\.lean$##; s#/#.#g')
 (cd lean && lake build NdInterp driver $MODS)
 [ -f harness/Cargo.lock ] || cp /repo/Cargo.lock harness/Cargo.lock
